@@ -29,7 +29,7 @@ THEOREMS = [P + t for t in (
     # the disjoint store's round trip
     "dreadDoc_serialize", "droundtrip_import_direct", "droundtrip_import_string", "droundtrip_import_string_counterexample",
     "dimport_string_present", "dimport_frame_string", "dimport_frame_direct",
-    "enumerate_fixpoint", "dreserialize_stable_direct",
+    "enumerate_fixpoint", "dreserialize_stable_direct", "validate_attrs", "dvalidates_after_import_direct",
     "dStoreInv_empty", "dsession_invariant", "dserialize_docWF", "droundtrip_after_session",
     # whole sessions
     "storeInv_empty", "storeInv_step", "session_invariant", "serialize_docWF", "roundtrip_after_session",
@@ -130,26 +130,30 @@ def nontrivial_graph(im, gid):
 
 
 def validate_step(im, gid, lines, expect, res, meta):
-    """validate_graph() on the shared store against the model (json.loads verdicts are passed in)"""
-    if im.disjoint:
-        return
+    """validate_graph() against the model on both stores (json.loads verdicts are passed in; the JSON property names are
+    the ones the translator read from the repo)"""
     import json as _j
     from fim.graph.abc_property_graph_constants import ABCPropertyGraphConstants as K
     names = list(K.JSON_PROPERTY_NAMES)
     oks = set()
-    for _, d in im.st.graphs.nodes(data=True):
-        for k in names:
-            v = d.get(k)
-            if isinstance(v, str):
-                try:
-                    _j.loads(v)
-                    oks.add(v)
-                except _j.JSONDecodeError:
-                    pass
+    if im.disjoint:
+        nodesets = [g.nodes(data=True) for g in im.st.graphs.values()]
+    else:
+        nodesets = [im.st.graphs.nodes(data=True)]
+    for ns in nodesets:
+        for _, d in ns:
+            for k in names:
+                v = d.get(k)
+                if isinstance(v, str):
+                    try:
+                        _j.loads(v)
+                        oks.add(v)
+                    except _j.JSONDecodeError:
+                        pass
     r = attempt(lambda: im.graph(gid).validate_graph())
-    lines.append(L.dumps(["validate", L.val(gid), None, sorted(oks)]))      # names: the driver uses Gen.Serial.jsonPropertyNames
+    lines.append(L.dumps(["dvalidate" if im.disjoint else "validate", L.val(gid), None, sorted(oks)]))
     expect.append((r, dict(meta, op="validate")))
-    res.count("op:validate:" + ("ok" if r[0] == "ok" else r[1]))
+    res.count("op:%svalidate:%s" % (im.px, "ok" if r[0] == "ok" else r[1]))
 
 
 def attempt(fn):
@@ -721,6 +725,7 @@ class SessionOracle:
         self.sess, self.res = sess, res
         self.flav = "disjoint" if sess.get("disjoint") else "shared"
         self.failed_at = None
+        self.tainted = set()     # graph ids that hold what a harness-damaged text left there: nothing is claimed about them
 
     def bad(self, ev, sig, what, **kw):
         case = {"session": dict(self.sess, ops=self.sess["ops"][:ev["i"] + 1])}
@@ -741,6 +746,9 @@ class SessionOracle:
         op = ev["op"]
         if op == "save":
             s = ev["slot"]
+            s.tainted = s.gid in self.tainted
+            if s.tainted:
+                return
             if ev["result"][0] != "ok" or s.text is None:
                 if s.snap is not None:
                     self.bad(ev, "serialize:%s:%s:%s" % (s.fmt, ev["spec"]["via"], ev["result"][1] if ev["result"][0] == "err" else "none"),
@@ -782,6 +790,11 @@ class SessionOracle:
         op, sp, s = ev["op"], ev["spec"], ev["slot"]
         if s.text is None or s.snap is None:
             return
+        if getattr(s, "tainted", False) or sp.get("damage"):
+            if ev["result"][0] == "ok":
+                self.tainted.add(ev["result"][1][1])
+            if not sp.get("damage"):
+                return
         entry = sp.get("entry") or ("file" if sp["via"] == "file" else "string")
         direct = (op == "imp" and entry.endswith("direct")) or (op != "imp" and not sp.get("newid"))
         target = s.gid if direct else (sp.get("newid") or sp.get("gid"))
@@ -799,6 +812,7 @@ class SessionOracle:
         if got != target:
             self.bad(ev, "%s:graph-id" % tag, "the model is held under id %r afterwards, expected %r" % (got, target))
             return
+        self.tainted.discard(got)
         after = run.snap(got)
         want = s.snap
         if _strip(after) != _strip(want):
@@ -837,7 +851,9 @@ class SessionOracle:
         """enumerate_graph_nodes[_to_string] on a text the library wrote: every node has its NodeID already, so the
         re-written text carries the same content (and, for the file variant, the label markup)"""
         s, sp = ev["slot"], ev["spec"]
-        if ev["result"][0] == "skip" or s.snap is None:
+        if "out" in ev:
+            ev["out"].tainted = getattr(s, "tainted", False)
+        if ev["result"][0] == "skip" or s.snap is None or getattr(s, "tainted", False):
             return
         tag = "enumerate:%s" % sp["to"]
         self.res.count("session:" + tag)
@@ -868,6 +884,10 @@ class SessionOracle:
         tag = "clone:%s" % ("abc" if sp.get("abc") else "nx")
         src = ev["pre"].get(ev["src"])
         self.res.count("session:" + tag)
+        if ev["src"] in self.tainted:
+            if ev["result"][0] == "ok":
+                self.tainted.add(sp["newid"])
+            return
         if src is None:
             return
         if ev["result"][0] != "ok":
